@@ -99,7 +99,7 @@ pub fn run_heur(seed: u64, thorough: bool) {
         {
             let nkeys = rng.range(2, 4);
             let req = random_dag(&mut rng, nkeys, 2);
-            let strategy = rng.below(5);
+            let strategy = rng.below(6);
             let np = rng.range(1, 4);
             let pats: Vec<TPattern> = (0..np)
                 .map(|_| {
